@@ -214,9 +214,83 @@ fn unwritten_requests(rep: &mut Rep) {
     }
 }
 
+/// A publish refused locally (send window used up, or larger than the Maximum Packet Size) in the midst of other requests
+/// that were started after it and before its refusal was seen: those and the ones started afterwards still complete each
+/// with its own acknowledgement - whatever the library does with the identifier of the refused publish.
+fn refused_in_the_midst(rep: &mut Rep) {
+    rep.note("refused in the midst: a QoS 1 / QoS 2 publish refused for quota (Receive Maximum 1, one publish in flight) or for size (Maximum Packet Size 64) while 1-2 requests started after it are queued behind it (context held); after the refusal is seen, 1-2 further requests of the same kinds; acknowledgements in reverse order with distinct contents");
+    let mut idx = 24_000_000u64;
+    for by_size in [false, true] {
+        for xk in [Kind::Pub1, Kind::Pub2] {
+            for yk in [Kind::Sub, Kind::Unsub, Kind::Pub1, Kind::Pub2] {
+                for n_between in 1..=2usize {
+                    for poll_first in [false, true] {
+                        // under Receive Maximum 1 with a publish in flight, further QoS>0 publishes would be refused as well
+                        if !by_size && yk.is_qos_pub() {
+                            continue;
+                        }
+                        let id = format!("refused-midst:{}:{}:{}:{n_between}:{}", by_size as u8, xk.name(), yk.name(), poll_first as u8);
+                        idx += 1;
+                        if !rep.take(idx, &id) {
+                            continue;
+                        }
+                        let mut w = World::boot(WorldCfg { seed: rep.seed, receive_max: if by_size { None } else { Some(1) }, max_packet: if by_size { Some(64) } else { None }, ..Default::default() });
+                        if !by_size {
+                            w.start(0, Kind::Pub1);
+                            w.settle_check();
+                        }
+                        w.sim.hold_ctx = true;
+                        let x = w.create(0, if by_size { Kind::PubBig } else { xk });
+                        w.submit(x);
+                        let mut later = Vec::new();
+                        for j in 0..n_between {
+                            later.push(w.start(1 - j % 2, yk));
+                        }
+                        // (poll_first: the refused publish's future is the first / the last of the woken futures to be polled)
+                        w.sim.order = if poll_first { 0 } else { 1 };
+                        w.sim.hold_ctx = false;
+                        w.settle_check();
+                        for j in 0..2usize {
+                            later.push(w.start(j % 2, yk));
+                            w.settle_check();
+                        }
+                        // answer in reverse order, full form (distinct reason strings)
+                        for &i in later.iter().rev() {
+                            if w.blind || w.m[i].pkt_id.is_none() {
+                                continue;
+                            }
+                            w.deliver_ack(i, 1, 0, 1);
+                            w.settle_check();
+                            if w.m[i].kind == Kind::Pub2 {
+                                w.deliver_ack(i, 2, 0, 1);
+                                w.settle_check();
+                            }
+                        }
+                        finish(&mut w);
+                        rep.add("evaluations", 1);
+                        rep.add("refused_in_the_midst_cases", 1);
+                        rep.distinct(&("refused-midst", by_size, xk, yk, n_between, poll_first));
+                        for v in w.viols.iter_mut() {
+                            if v.sig.starts_with("C11/duplicate-packet-id") {
+                                // two operations of one kind outstanding under one identifier cannot both get their own acknowledgement
+                                v.props = &["C05", "C11"];
+                            }
+                        }
+                        if super::harvest(rep, &mut w, &id) == 0 {
+                            rep.sample(|| format!("{id}: results {:?}", later.iter().map(|&i| w.sim.ops[i].out.as_ref().map(|o| o.brief())).collect::<Vec<_>>()));
+                        }
+                        super::add_counters(rep, &w);
+                    }
+                }
+            }
+        }
+    }
+}
+
 pub fn run(rep: &mut Rep) {
     if rep.profile != "tsan" {
         unwritten_requests(rep);
+        refused_in_the_midst(rep);
     }
     if rep.profile == "tsan" {
         // the race detector has something to see only where several threads run: the single-task explorations are skipped
